@@ -1,7 +1,7 @@
 #!/bin/bash
 # usage: try_edit.sh <file> <python-expr-transform s->s> <prop...>   dev helper: edit a scratch worktree and run checks
 f=$1; expr=$2; shift 2
-wt=/tmp/tryed.$$
+wt=/tmp/tryed.$$; trap "git -C /repo worktree remove --force $wt 2>/dev/null" EXIT
 git -C /repo worktree add -q --detach $wt HEAD || exit 3
 python3 - "$wt/$f" "$expr" <<'PY'
 import sys
